@@ -664,7 +664,61 @@ def _check_whole(case):
     return None
 
 
+# ---- defined names of a loaded workbook: every letter case of a name denotes the name ----
+_WB_NAMES = ['Rate', 'my.rate_1', 'TOTAL', 'x_y', 'Tax_2020']
+
+
+def _wbname_cases(tier, rng):
+    return [('wbname', n) for n in _WB_NAMES]
+
+
+def _check_wbname(case):
+    import logging
+    import os
+    import shutil
+    import tempfile
+    import numpy as np
+    import openpyxl
+    import formulas
+    from openpyxl.workbook.defined_name import DefinedName
+    _, name = case
+    logging.disable(logging.CRITICAL)
+    d = tempfile.mkdtemp(prefix='verif_c04n_')
+    try:
+        wb = openpyxl.Workbook()
+        ws = wb.active
+        ws.title = 'S'
+        ws['A1'] = 21
+        wb.defined_names[name] = DefinedName(name, attr_text='S!$A$1')
+        spellings = [name, name.upper(), name.lower(), name.swapcase()]
+        for i, sp in enumerate(spellings):
+            ws['B%d' % (i + 1)] = '=%s*2' % sp
+        ws['B9'] = '=SUM(%s,%s)' % (name.lower(), name.upper())
+        path = os.path.join(d, 'names.xlsx')
+        wb.save(path)
+        try:
+            sol = formulas.ExcelModel().loads(path).finish().calculate()
+        except Exception as ex:
+            return 'workbook with the defined name %s: loading / calculation raised %s: %s' % (name, type(ex).__name__, str(ex)[:100])
+
+        def val(ref):
+            v = sol.get("'[names.xlsx]S'!%s" % ref)
+            return np.asarray(v.value, object).ravel()[0] if v is not None else None
+        for i, sp in enumerate(spellings):
+            if val('B%d' % (i + 1)) != 42:
+                return 'defined name %s = S!$A$1 (21): =%s*2 gives %r, expected 42' % (name, sp, val('B%d' % (i + 1)))
+        if val('B9') != 42:
+            return 'defined name %s: =SUM(%s,%s) gives %r, expected 42' % (name, name.lower(), name.upper(), val('B9'))
+        return None
+    finally:
+        logging.disable(logging.NOTSET)
+        shutil.rmtree(d, ignore_errors=True)
+
+
 BOUNDED = [
+    Stage('B2:defined-names-of-a-workbook-in-any-letter-case', 'C04', _wbname_cases, _check_wbname,
+          '%d workbooks with a defined name (mixed case, dots, underscores, digits) referenced in four letter cases from cell formulas: all '
+          'spellings denote the name' % len(_WB_NAMES), parallel=False),
     Stage('B1:cell-spellings', 'C04', _cell_cases, _check_cell,
           'every column 1..16384 with a random row (plus boundary rows on selected columns; thorough: 4 more rows per column), '
           '14 spellings each ($ markers, case, R1C1, redundant range, relative forms with hosts), read-back, coordinates',
